@@ -25,8 +25,8 @@ Non-trivial = at least 2 cipher blocks, or empty secret, or empty length padding
 
 fn parts(t: Tier) -> Vec<Part> {
     let (a, b) = match t {
-        Tier::Quick => (200_000, 60_000),
-        Tier::Thorough => (4_000_000, 1_000_000),
+        Tier::Quick => (600_000, 180_000),
+        Tier::Thorough => (8_000_000, 2_000_000),
     };
     vec![tape("hide-reveal", a, 1500), tape("identity", b, 1300)]
 }
